@@ -81,7 +81,7 @@ def unpack_cols(flat, n, ld, nrhs, cplx):
 def run_case(exes, cfg, M, rhs):
     """-> record dict: status in ok|crash|timeout|error, op result, lucase text (if any)."""
     ops, done, rc, err = D.run_script(exes[cfg["prec"]], script_for(cfg, M, rhs), timeout=120)
-    rec = {"cfg": cfg, "status": "ok", "rc": rc, "err": err[-1500:] if err else ""}
+    rec = {"cfg": cfg, "status": "ok", "rc": rc, "err": err[-1500:] if err else "", "crash_site": crash_site(err or "")}
     if rc is None:
         rec["status"] = "timeout"; return rec
     if rc != 0 or not done or not ops:
@@ -89,6 +89,21 @@ def run_case(exes, cfg, M, rhs):
     r = ops[0]; rec["res"] = r
     rec["info"] = r["info"]
     return rec
+
+
+def crash_site(err):
+    """normalised 'kind@function' of a sanitizer / abort report (precision letter wildcarded), or ''"""
+    import re
+    m = re.search(r"SUMMARY: \w+Sanitizer: (\S+) \S*?([\w.]+):(\d+)(?::\d+)? in (\w+)", err)
+    if m:
+        fn = re.sub(r"^(p?)[sdcz](g|l|P|s)", r"\1?\2", m.group(4))
+        return "%s@%s" % (m.group(1), fn)
+    m = re.search(r"SUMMARY: \w+Sanitizer: (\S+)", err)
+    if m:
+        return m.group(1) + "@?"
+    if "Not enough memory" in err or "ABORT" in err.upper():
+        return "abort"
+    return ""
 
 
 def lucase_for(rec, M, rhs):
@@ -148,7 +163,7 @@ def replay_blob(rec):
             "vals_hex": [([float(v[0]).hex(), float(v[1]).hex()] if M.cplx else float(v).hex()) for v in M.vals]},
             "rhs_hex": [[([float(v[0]).hex(), float(v[1]).hex()] if M.cplx else float(v).hex()) for v in col] for col in rec["rhs"]],
             "script": script_for(rec["cfg"], M, rec["rhs"]), "status": rec["status"], "rc": rec["rc"], "stderr": rec.get("err", "")[-800:],
-            "verdict": rec.get("verdict"), "info": rec.get("info")}
+            "verdict": rec.get("verdict"), "info": rec.get("info"), "crash_site": rec.get("crash_site")}
 
 
 def summarize(recs):
